@@ -56,6 +56,7 @@ pub fn streams() -> Vec<(&'static str, StreamFn)> {
     vec![
         ("url", url::run as StreamFn),
         ("pipeline", pipeline::run as StreamFn),
+        ("pipetabs", pipeline::run_tabs as StreamFn),
         ("htmldecode", htmldecode::run as StreamFn),
         ("inline", inline::run as StreamFn),
         ("block", block::run as StreamFn),
